@@ -130,13 +130,19 @@ def validate(
 
                 for k in bound_args:
                     if k == 'args' and wants_args:
-                        for arg, parameter in zip(
-                                bound_args[k],
-                                [p for p in parameters if p.name not in used_parameter_names]
-                        ):
+                        unused = [p for p in parameters if p.name not in used_parameter_names]
+
+                        if strict and len(bound_args[k]) > len(unused):
+                            raise TooManyArguments(f'Got more arguments expected: No parameter found for '
+                                                   f'positional argument {len(unused)} of *args')
+
+                        for arg, parameter in zip(bound_args[k], unused):
                             print(f'Validate value {arg} with {parameter}')
                             result[parameter.name] = parameter.validate(arg)
                             used_parameter_names.append(parameter.name)
+
+                        for i, arg in enumerate(bound_args[k][len(unused):], start=len(unused)):
+                            result[f'*args[{i}]'] = arg  # not strict and no parameter: passed through in its position
                     elif k in parameter_dict:
                         parameter = parameter_dict[k]
                         result[k] = parameter.validate(value=bound_args[k])
